@@ -568,6 +568,10 @@ struct Rho {
     /// memory at function entry
     entry_mem: State,
     lenient_empty: bool,
+    /// bytes accessed by this activation, per set of abstract identifiers that the analysis computed for the
+    /// access address: the same byte reached through two disjoint identifier sets means that two abstract
+    /// objects denote the same memory in this run
+    touched: Vec<(std::collections::BTreeSet<String>, std::collections::BTreeSet<u64>)>,
 }
 
 impl Rho {
@@ -649,9 +653,9 @@ struct Obs<'a, 'b> {
     extern_writes: u64,
     checks_after_call: u64,
     after_call: bool,
-    /// an internal callee was entered with two pointer-like parameter values (or a parameter and the stack
-    /// pointer) pointing into the same memory area: the analysis' assumption that different parameter
-    /// identifiers denote different memory does not hold from then on
+    /// an internal callee accessed the same byte through two different bases (two parameters that point into
+    /// the same caller object, a parameter and its own stack pointer, ...): the analysis' assumption that
+    /// different parameter identifiers denote different memory does not hold from then on
     aliasing_frame: bool,
 }
 
@@ -799,6 +803,36 @@ impl<'a, 'b> Observer for Obs<'a, 'b> {
         true
     }
 
+    fn at_access(&mut self, def: &Term<Def>, addr: u64, size: usize, _state: &State) {
+        // only activations of internal callees: the function under test starts from a state the harness chose
+        if self.frames.len() < 2 {
+            return;
+        }
+        // through which abstract objects does the analysis think this access goes?
+        let d = match self.pi.eval_address_at_def(&def.tid) {
+            Some(d) => d,
+            None => return,
+        };
+        let mut ids: std::collections::BTreeSet<String> = d.get_relative_values().keys().map(|id| format!("{}", id)).collect();
+        if d.get_absolute_value().is_some() {
+            ids.insert("abs".to_string());
+        }
+        if ids.is_empty() {
+            return; // Top: the analysis claims nothing
+        }
+        let frame = self.frames.last_mut().expect("frame");
+        let bytes: Vec<u64> = (0..size as u64).map(|i| addr.wrapping_add(i)).collect();
+        for (other, set) in frame.touched.iter() {
+            if other.is_disjoint(&ids) && bytes.iter().any(|x| set.contains(x)) {
+                self.aliasing_frame = true;
+            }
+        }
+        match frame.touched.iter_mut().find(|(o, _)| *o == ids) {
+            Some((_, set)) => set.extend(bytes),
+            None => frame.touched.push((ids, bytes.into_iter().collect())),
+        }
+    }
+
     fn at_call(&mut self, _call: &Term<Jmp>, target: &Tid, state: &mut State) -> CallAction {
         if let Some(sym) = self.project.program.term.extern_symbols.get(target) {
             let sym = sym.clone();
@@ -817,20 +851,9 @@ impl<'a, 'b> Observer for Obs<'a, 'b> {
         for r in self.regs {
             entry.insert(r.name.clone(), state.get(r).v);
         }
-        {
-            let mut ptrs: Vec<u64> = PARAM_REGS.iter().map(|r| entry[*r] as u64).collect();
-            ptrs.push(rsp);
-            for i in 0..ptrs.len() {
-                for j in i + 1..ptrs.len() {
-                    if ptrs[i].abs_diff(ptrs[j]) < (1 << 20) {
-                        self.aliasing_frame = true;
-                    }
-                }
-            }
-        }
         let mut entry_mem = State::new(state.mem_seed);
         entry_mem.mem = state.mem.clone();
-        self.frames.push(Rho { sub_tid: target.clone(), entry, entry_mem, lenient_empty: self.lenient_empty });
+        self.frames.push(Rho { sub_tid: target.clone(), entry, entry_mem, lenient_empty: self.lenient_empty, touched: vec![] });
         // P-Code temporaries do not survive instructions
         let temps: Vec<String> = state.vars.keys().filter(|k| k.starts_with('$')).cloned().collect();
         for t in temps {
@@ -927,7 +950,7 @@ pub fn check_case(case: &Case, ctx: &mut Ctx) -> CaseResult {
                 entry.insert(n.clone(), *v);
             }
             let entry_mem = State::new(seed);
-            let rho = Rho { sub_tid: sub_tid.clone(), entry, entry_mem, lenient_empty: case.literal };
+            let rho = Rho { sub_tid: sub_tid.clone(), entry, entry_mem, lenient_empty: case.literal, touched: vec![] };
             let mut obs = Obs {
                 pi: &pi,
                 project: &project,
@@ -979,7 +1002,7 @@ pub fn check_case(case: &Case, ctx: &mut Ctx) -> CaseResult {
                     // the callee's parameters aliased each other at run time; this cannot be undone by changing
                     // the initial state (the caller computes the pointers), so the failure is attributed to the
                     // same documented assumption without a de-aliasing re-run
-                    return Err((sig, format!("(an internal callee was entered with parameter pointers into the same memory area)\n{}", detail), true));
+                    return Err((sig, format!("(an internal callee accessed the same memory through two different parameter / stack bases)\n{}", detail), true));
                 }
                 if *aliasing {
                     // Does the failure disappear when the aliasing is removed (parameter registers replaced by
